@@ -499,6 +499,39 @@ static void pointer_types(uint64_t& blk)
         if (o != O_ABORT) viol("C07 op=store type=long[3] kind=silent-truncation", kase, "element 2^32 does not fit a 32-bit guest long, store did not abort");
         restore(a, 12);
       }
+      if (a + 24 <= kSize) {
+        // a two-dimensional array whose element is narrower in the guest: all 2 x 3 elements move, 24 guest bytes
+        tn<long[2][3]> arr2;
+        uint8_t want2[24];
+        for (int i = 0; i < 2; i++)
+          for (int j = 0; j < 3; j++) {
+            long v = (i * 3 + j) % 2 ? -(long)(100 + i * 3 + j) : 0x01020304L + i * 3 + j;
+            arr2[i][j] = v;
+            enc_int(v, 4, want2 + 4 * (i * 3 + j));
+          }
+        auto pa2 = ptr_at<long[2][3]>(a);
+        std::string kase2 = "arr|long[2][3]|" + std::to_string(a) + "|0|" + std::to_string(pat) + "|0";
+        Out o2 = guarded([&] { *pa2 = arr2; });
+        n_eval++;
+        std::string why2;
+        if (o2 != O_RET) viol("C07 op=store type=long[2][3] kind=abort-or-crash", kase2, "2-D array store did not return");
+        else if (!region_matches(a, 24, want2, why2)) viol("C07 op=store type=long[2][3] kind=bytes", kase2, why2);
+        memcpy(g_mem + a, want2, 24);
+        bool okv = true;
+        o2 = guarded([&] {
+          tn<long[2][3]> back = *pa2;
+          for (int i = 0; i < 2; i++)
+            for (int j = 0; j < 3; j++) {
+              long v = (i * 3 + j) % 2 ? -(long)(100 + i * 3 + j) : 0x01020304L + i * 3 + j;
+              if (back[i][j].UNSAFE_unverified() != v) okv = false;
+              if ((*pa2)[i][j].UNSAFE_unverified() != v) okv = false;
+            }
+        });
+        n_eval++;
+        if (o2 != O_RET) viol("C07 op=load type=long[2][3] kind=abort-or-crash", kase2, "2-D array load did not return");
+        else if (!okv) viol("C07 op=load type=long[2][3] kind=decoding", kase2, "an element of the 2-D array decoded wrongly");
+        restore(a, 24);
+      }
       {
         tn<int* [2]> arr;
         arr[0].assign_raw_pointer(*g_sb, reinterpret_cast<int*>(g_base + 0x2222));
@@ -664,7 +697,7 @@ int main(int argc, char** argv)
   if (only.empty() || only == "double") float_type<double>(blk);
 #endif
 #if (defined(C07_C) && !defined(C07_WIDE)) || defined(C07_D)
-  if (only.empty() || only == "int*" || only == "fn" || only == "long[3]" || only == "int*[2]" || only == "VS") pointer_types(blk);
+  if (only.empty() || only == "int*" || only == "fn" || only == "long[3]" || only == "long[2][3]" || only == "int*[2]" || only == "VS") pointer_types(blk);
 #endif
   stat("evaluations", n_eval);
   stat("nontrivial", n_nontriv);
